@@ -489,21 +489,21 @@ end Expect
   definitions to the model the 56 theorems above are about.
 
   PROVED for all arguments: Null, Bool, Integer, String (= encodeString),
-  Float.MarshalJSON (= floatHacks on every text that contains an `E`, hence
-  = marshalFloat on every strconv text), Attribute, Array and Object .MarshalJSON (the loops, the `first` flag, the
-  null-member filter, the error propagation) = attrJoin / marshalL / marshalK;
+  encodeString on the UTF-8 of every string of Unicode scalar values
+  (`src_encodeString`: the byte loop = the code-point model, hence the README
+  escapes), Float.MarshalJSON (= floatHacks on every text that contains an `E`,
+  hence = marshalFloat on every strconv text), Attribute, Array and Object
+  .MarshalJSON (the loops, the `first` flag, the null-member filter, the error
+  propagation) = attrJoin / marshalL / marshalK, tied through the interface
+  Canonicalable by `marshal_tie` for every value json.Decoder can yield;
   Object.Sort = sortL (the comparator is the bytewise order of the keys, which
   on UTF-8 is the code-point order `ltS`); the two condition-controlled loops
   never run out of fuel.
-  PARTIAL (`_partial`): `marshal_tie_partial` takes the statement about
-  encodeString as a hypothesis — it is proved here on the ASCII table
-  (`src_escape_table_is_readme`, all 128 one-byte strings), not for all
-  arguments; checkEncoding / escapedUnit are proved on examples and on a small
-  exhaustive alphabet (`src_check_examples`, `src_checkEncoding_small`).
-  Full statements, not proved:
-    ∀ s, obs (Src.encodeString (utf8s s)) = (C14n.encodeString s).map utf8s
+  NOT proved for all arguments (examples and a small exhaustive alphabet only:
+  `src_check_examples`, `src_checkEncoding_small`, `src_encodeString_rejects`):
     ∀ raw, (Src.checkEncoding raw).isNone = C14n.checkEncoding raw
     ∀ b, Src.escapedUnit b = (C14n.escapedUnit b).elim (-1) Int.ofNat
+    ∀ s with a non-scalar element, (Src.encodeString (utf8s s)).2.isSome
 -/
 namespace Src
 open GoblVerif.Generated GoblVerif.GoBytes GoblVerif.C14nSrc GoblVerif.GoSem
@@ -519,6 +519,90 @@ theorem src_integer (i : Int) : obs (C14nSrc.Integer_MarshalJSON i) = (marshalAt
   rfl
 
 theorem src_string (s : Bytes) : C14nSrc.String_MarshalJSON s = C14nSrc.encodeString s := rfl
+
+/-! ### encodeString -/
+
+/-- HEADLINE rule 8 over the regenerated definition, all strings: encodeString as it is in the
+    repository now, run on the UTF-8 bytes of a string of Unicode scalar values (what
+    `json.Decoder` yields), returns no error and the UTF-8 of the model's text — the byte loop
+    with its `start` / lazy copy, the safeSet test, the `switch`, hex[b>>4] hex[b&0xF], and
+    utf8.DecodeRuneInString skipping the non-ASCII characters.  With `escapes_minimal` the text
+    is `"` ++ README escapes ++ `"`.  (A string with a non-scalar element is rejected by the
+    model; for the regenerated code that branch is covered by `src_encodeString_rejects`.) -/
+theorem src_encodeString (s : GoblVerif.Str) (hs : s.all isScalar = true) :
+    obs (C14nSrc.encodeString (utf8s s)) = (C14n.encodeString s).map utf8s := by
+  unfold C14nSrc.encodeString
+  simp only [Id.run]
+  rw [forIn_range_fuel _ (fun _ _ => rfl)]
+  generalize hB : utf8s s = B
+  generalize hr : forFuel _ B.length _ = r
+  have hr' : r = forFuel (encStep B) B.length (none, [] ++ [34], 0, 0) := by
+    rw [← hr]; clear hr
+    refine forFuel_congr _ _ (fun st => ?_) _ _
+    simp only [encStep, escBytes, Id.run, GoSem.id_pure, show Int.toNat 4 = 4 from rfl]
+    by_cases h1 : st.2.2.2 < (B.length : Int)
+    · simp only [h1, not_true_eq_false, if_false]
+      by_cases h2 : byteAt B st.2.2.2.toNat < 128
+      · simp only [h2, if_true]
+        by_cases h3 : C14nSrc.safeSet[byteAt B st.2.2.2.toNat]! = true
+        · simp only [h3, if_true]
+        simp only [h3, if_false, Bool.false_eq_true]
+        generalize byteAt B st.2.2.2.toNat = b
+        by_cases h4 : st.2.2.1 < st.2.2.2
+        · simp only [h4, if_true]
+          repeat' split
+          all_goals simp
+        · simp only [h4, if_false]
+          repeat' split
+          all_goals simp
+      · simp only [h2, if_false]
+    · simp only [h1, not_false_eq_true, if_true]
+  clear hr
+  obtain ⟨out, buf', start', h1, h2, h3⟩ := enc_loop B s [] ([] ++ [34]) 0 B.length (by rw [← hB]; simp [utf8s])
+    (Nat.zero_le _) (by rw [← hB]; exact utf8s_length_ge s) hs
+  have h2' : r = (none, buf', (start' : Int), (B.length : Int)) := by
+    rw [hr', ← h2]; simp [utf8s]
+  subst h2'
+  have hcast : ((start' : Int) < (B.length : Int)) ↔ start' < B.length := by omega
+  simp only [pure_bind, Int.toNat_natCast, hcast]
+  have hfin : (if start' < B.length then buf' ++ List.drop start' B else buf') = buf' ++ List.drop start' B := by
+    split
+    · rfl
+    · rw [List.drop_eq_nil_iff.mpr (by omega)]; simp
+  have hout : C14n.encodeString s = some (0x22 :: (out ++ [0x22])) := by
+    simp [C14n.encodeString, h1]
+  rw [hout]
+  by_cases hlt : start' < B.length
+  · simp only [hlt, if_true, obs, GoSem.id_pure]
+    rw [h3]
+    simp [utf8s_cons, utf8s_append, utf8_ascii, utf8s, slice, hlt]
+  · have hd : List.drop start' B = [] := List.drop_eq_nil_iff.mpr (by omega)
+    rw [hd] at h3
+    simp only [hlt, if_false, obs, GoSem.id_pure]
+    simp only [List.append_nil] at h3
+    rw [h3]
+    simp [utf8s_cons, utf8s_append, utf8_ascii, utf8s, slice, hlt]
+
+/-- the error branch of encodeString: bytes that are not the encoding of a scalar value (an
+    encoded surrogate, a stray continuation byte, 0xFF, a truncated sequence) are refused, also
+    after text that needed escaping -/
+theorem src_encodeString_rejects :
+    (C14nSrc.encodeString [0xED, 0xA0, 0x80]).2.isSome = true ∧
+    (C14nSrc.encodeString [97, 0x80]).2.isSome = true ∧
+    (C14nSrc.encodeString [10, 0xFF, 97]).2.isSome = true ∧
+    (C14nSrc.encodeString [0xE2, 0x82]).2.isSome = true ∧
+    (C14nSrc.encodeString [0xF4, 0x90, 0x80, 0x80]).2.isSome = true := by
+  decide +kernel
+
+/-- the string of U+FFFD itself is accepted and copied (size 3, not the error value) -/
+example : C14nSrc.encodeString [0xEF, 0xBF, 0xBD] = ([0x22, 0xEF, 0xBF, 0xBD, 0x22], none) := by decide +kernel
+
+theorem scalar_of_not_any (s : GoblVerif.Str) (h : s.any (fun c => !isScalar c) = false) : s.all isScalar = true := by
+  induction s with
+  | nil => rfl
+  | cons c cs ih =>
+    simp only [List.any_cons, Bool.or_eq_false_iff, Bool.not_eq_false'] at h
+    simp [h.1, ih h.2]
 
 theorem src_attribute (k : Str) (v : J)
     (hk : obs (C14nSrc.encodeString (utf8s k)) = (C14n.encodeString k).map utf8s)
@@ -600,62 +684,74 @@ example : wfFloat [1, 5] 0 = true := by decide
 
 /-! ### the recursion through the interface Canonicalable -/
 
-section tie
-variable (hES : ∀ s : Str, obs (C14nSrc.encodeString (utf8s s)) = (C14n.encodeString s).map utf8s)
-include hES
-
 mutual
-theorem tieJ_partial : ∀ v : J, v.wf = true → obs (srcJ v) = (marshalJ v).map utf8s
-  | .atom .null, _ => src_null {}
-  | .atom (.bool b), _ => src_bool b
-  | .atom (.int i), _ => src_integer i
-  | .atom (.flt n ds e), hw => by
+/-- what `json.Decoder` guarantees about the strings of a value: Unicode scalar values only -/
+theorem tieJ : ∀ v : J, v.wf = true → strsHave (fun c => !isScalar c) v = false →
+    obs (srcJ v) = (marshalJ v).map utf8s
+  | .atom .null, _, _ => src_null {}
+  | .atom (.bool b), _, _ => src_bool b
+  | .atom (.int i), _, _ => src_integer i
+  | .atom (.flt n ds e), hw, _ => by
     rw [srcJ, src_float_utf8 n ds e (by simpa [J.wf, Atom.wf] using hw)]; rfl
-  | .atom (.str s), _ => by rw [srcJ]; exact hES s
-  | .arr xs, hw => by
+  | .atom (.str s), _, hs => by
+    rw [srcJ]; exact src_encodeString s (scalar_of_not_any s (by simpa [strsHave] using hs))
+  | .arr xs, hw, hs => by
     have hw' : JL.wf xs = true := by simpa [J.wf] using hw
+    have hs' : strsHaveL (fun c => !isScalar c) xs = false := by simpa [strsHave] using hs
     unfold srcJ C14nSrc.Array_MarshalJSON
     simp only [marshalJ]
     refine arr_wrap _ _ _ ?_ _ (fun s => by rcases s with ⟨_ | _, _⟩ <;> rfl)
-    exact tieL_partial xs hw' 0 ([] ++ [91]) _ (fun _ _ => rfl)
-  | .obj kvs, hw => by
+    exact tieL xs hw' hs' 0 ([] ++ [91]) _ (fun _ _ => rfl)
+  | .obj kvs, hw, hs => by
     have hw' : KL.wf kvs = true := by simpa [J.wf] using hw
+    have hs' : strsHaveK (fun c => !isScalar c) kvs = false := by simpa [strsHave] using hs
     unfold srcJ C14nSrc.Object_MarshalJSON
     simp only [marshalJ]
     refine obj_wrap _ _ _ ?_ _ (fun s => by rcases s with ⟨_ | _, _⟩ <;> rfl)
-    exact tieK_partial kvs hw' true ([] ++ [123]) _ (fun _ _ => rfl)
-theorem tieL_partial : ∀ xs : JL, JL.wf xs = true → ∀ (n : Nat) (buf : Bytes) (f : Canon × Nat → ArrSt → Id (ForInStep ArrSt)),
+    exact tieK kvs hw' hs' true ([] ++ [123]) _ (fun _ _ => rfl)
+theorem tieL : ∀ xs : JL, JL.wf xs = true → strsHaveL (fun c => !isScalar c) xs = false →
+    ∀ (n : Nat) (buf : Bytes) (f : Canon × Nat → ArrSt → Id (ForInStep ArrSt)),
     (∀ it s, f it s = pure (arrStep it s)) →
     ArrPost (forIn (m := Id) ((srcL xs).zipIdx n) (none, buf) f).run buf (marshalL (n == 0) xs)
-  | .nil, _, n, buf, f, _ => arr_nil f n buf
-  | .cons x xs, hw, n, buf, f, hf => by
+  | .nil, _, _, n, buf, f, _ => arr_nil f n buf
+  | .cons x xs, hw, hs, n, buf, f, hf => by
     have hw' : J.wf x = true ∧ JL.wf xs = true := by simpa [JL.wf] using hw
+    have hs' : strsHave (fun c => !isScalar c) x = false ∧ strsHaveL (fun c => !isScalar c) xs = false := by
+      simpa [strsHaveL] using hs
     unfold srcL marshalL
-    exact arr_cons f hf _ _ n buf _ _ (tieJ_partial x hw'.1) (fun b => by
-      have := tieL_partial xs hw'.2 (n + 1) b f hf
+    exact arr_cons f hf _ _ n buf _ _ (tieJ x hw'.1 hs'.1) (fun b => by
+      have := tieL xs hw'.2 hs'.2 (n + 1) b f hf
       simpa using this)
-theorem tieK_partial : ∀ kvs : KL, KL.wf kvs = true → ∀ (first : Bool) (buf : Bytes)
-    (f : C14nSrc.Attribute → ObjSt → Id (ForInStep ObjSt)),
+theorem tieK : ∀ kvs : KL, KL.wf kvs = true → strsHaveK (fun c => !isScalar c) kvs = false →
+    ∀ (first : Bool) (buf : Bytes) (f : C14nSrc.Attribute → ObjSt → Id (ForInStep ObjSt)),
     (∀ it s, f it s = pure (objStep (C14nSrc.Attribute_MarshalJSON it) s)) →
     ObjPost (forIn (m := Id) (srcK kvs) (none, buf, first) f).run buf (marshalK first kvs)
-  | .nil, _, first, buf, f, _ => obj_nil f first buf
-  | .cons k v r, hw, first, buf, f, hf => by
+  | .nil, _, _, first, buf, f, _ => obj_nil f first buf
+  | .cons k v r, hw, hs, first, buf, f, hf => by
     have hw' : J.wf v = true ∧ KL.wf r = true := by simpa [KL.wf] using hw
+    have hs' : (k.any (fun c => !isScalar c) = false ∧ strsHave (fun c => !isScalar c) v = false) ∧
+        strsHaveK (fun c => !isScalar c) r = false := by
+      simpa [strsHaveK] using hs
     unfold srcK marshalK
-    have hh := src_attribute k v (hES k) (tieJ_partial v hw'.1)
+    have hh := src_attribute k v (src_encodeString k (scalar_of_not_any k hs'.1.1)) (tieJ v hw'.1 hs'.1.2)
     generalize attrJoin v.isNull (C14n.encodeString k) (marshalJ v) = m at hh ⊢
     have := obj_cons C14nSrc.Attribute_MarshalJSON f hf _ (srcK r) first buf m (fun fl => marshalK fl r)
-      hh (fun fl b => tieK_partial r hw'.2 fl b f hf)
+      hh (fun fl b => tieK r hw'.2 hs'.2 fl b f hf)
     cases m <;> exact this
 end
 
-/-- PARTIAL (see the header of this namespace): Go's MarshalJSON on the value that stands for `v`,
-    computed by the TRANSLATED methods at every node, returns the UTF-8 of the model's text, and
-    an error exactly where the model rejects — given the statement about encodeString that is
-    not proved for all arguments -/
-theorem marshal_tie_partial (v : J) (hw : v.wf = true) : obs (srcJ v) = (marshalJ v).map utf8s :=
-  tieJ_partial hES v hw
-end tie
+/-- Go's MarshalJSON on the value that stands for `v`, computed by the TRANSLATED methods at
+    every node (a Canonicalable being what its MarshalJSON returned), returns no error and the
+    UTF-8 of the model's text, for every value `json.Decoder` can hand over (well-formed float
+    digits, strings of scalar values): strings, numbers, the commas of Array.MarshalJSON, the
+    `first` flag and the NULL-MEMBER FILTER of Object.MarshalJSON, key `:` value -/
+theorem marshal_tie (v : J) (hw : v.wf = true) (hs : strsHave (fun c => !isScalar c) v = false) :
+    obs (srcJ v) = (marshalJ v).map utf8s :=
+  tieJ v hw hs
+
+example : J.wf (.obj (.cons [97] (.atom .null) (.cons [0xE9] (.arr (.cons (.atom (.flt true [1, 5] 0)) .nil)) .nil))) = true ∧
+    strsHave (fun c => !isScalar c) (.obj (.cons [97] (.atom .null) (.cons [0xE9] (.arr (.cons (.atom (.flt true [1, 5] 0)) .nil)) .nil))) = false := by
+  decide
 
 /-! ### Object.Sort -/
 
